@@ -45,6 +45,16 @@ def lst(n):
     return ("lst", tuple(float(i + 1) for i in range(n)))
 
 
+def typed(n):
+    """constant data in other NumPy dtypes / as Python ints (values exactly representable)"""
+    ints = tuple((i + 1) * (-1 if i % 3 == 2 else 1) for i in range(n))
+    nonneg = tuple(i + 2 for i in range(n))
+    bits = tuple((i + 1) % 2 for i in range(n))
+    halves = tuple(0.5 * (i + 1) * (-1 if i % 2 else 1) for i in range(n))
+    return [("arr", ints, "int"), ("arr", ints, "int32"), ("arr", nonneg, "uint8"), ("arr", bits, "bool"), ("arr", halves, "float32"),
+            ("lst", ints)]
+
+
 def mat(r, c_, name="M", sym=False):
     return ("mvar", name, r, c_, sym)
 
@@ -53,7 +63,9 @@ def arr2(r, c_, off=0):
     return ("arr2", tuple(tuple(float((i * c_ + j + 1 + off) * (0.5 if (i + j) % 2 else -1.0)) for j in range(c_)) for i in range(r)))
 
 
-SCAL = [("c", 2), ("c", -0.5), ("k", 2.0, "np64"), ("k", 3, "npi"), ("k", 0.5, "a0")]
+SCAL = [("c", 2), ("c", -0.5), ("k", 2.0, "np64"), ("k", 3, "npi"), ("k", 0.5, "a0"),
+        # scalar optyx expressions as the non-vector operand (broadcast like a NumPy scalar, or rejected)
+        ("var", "s"), ("bin", "+", ("var", "s"), ("c", 1)), ("un", "sin", ("var", "s")), ("C", 1.5)]
 
 
 def views(tier):
@@ -146,10 +158,10 @@ def elementwise(pool, tier):
         for op in ("+", "-", "*", "/"):
             for other in (v3, w3, ("c", 2), arr(3), ("vbin", "+", w3, ("c", 1)), node):
                 yield ("vbin", op, node, other)
+                yield ("vbin", op, other, node) if other[0] != "c" else ("rvbin", op, other, node)
             # ... and as the RIGHT operand of a vector (sizes 3 = fits, 4 = must be rejected)
             for other in (v3, w3, ("vbin", "+", w3, ("c", 1)), vec(4), ("slice", vec(4), 1, None, None)):
                 yield ("vbin", op, other, node)
-                yield ("vbin", op, other, node) if other[0] != "c" else ("rvbin", op, other, node)
 
 
 def reductions(vectors, tier):
@@ -171,6 +183,14 @@ def reductions(vectors, tier):
             yield ("mm", u, lst(n))
             yield ("LC", arr(n), u)
             yield ("dot", u, arr(n))
+            for d in typed(n):
+                yield ("mm", d, u)
+                yield ("mm", u, d)
+                yield ("dot", u, d)
+                if d[0] == "arr":
+                    yield ("LC", d, u)
+                yield ("sum", ("vbin", "*", u, d))
+                yield ("sum", ("rvbin", "-", d, u))
             yield ("dot", u, lst(n))
             yield ("qform", u, Q[n])
             yield ("QF", u, Q[n])
@@ -421,7 +441,9 @@ def culprit(v):
     ew = _elementwise_operand(rmin)
     if ew:
         c = {"kind": "elementwise-node-used-as-operand", "outer": ew[0], "node": ew[1][0] if ew[1][0] != "vbin" else "vpow"}
-        if ew[0] == "vbin" and ew[2] == 3 and _elementwise_operand(("x", rmin[2])) is None and rmin[2][0] not in ("vpow", "vun"):
+        if ew[0] == "vbin" and ew[2] == 3 and rmin[2][0] in ("arr", "lst", "c", "k", "C"):
+            c["outer"] = "rvbin"        # plain data on the left: the reflected form (array / list / scalar op node)
+        elif ew[0] == "vbin" and ew[2] == 3 and _elementwise_operand(("x", rmin[2])) is None and rmin[2][0] not in ("vpow", "vun"):
             c["position"] = "right-operand-of-a-vector"     # works on the pinned tree (dedicated branch): never a known finding
         return c
     return {"kind": kind, "recipe": rmin}
